@@ -15,7 +15,7 @@ def sh(cmd):
     p = subprocess.run(cmd, shell=True, cwd=wt, env=env, stdout=subprocess.PIPE, stderr=subprocess.STDOUT, text=True); return p.returncode, p.stdout
 try: notes = json.load(open(os.path.join(wt, SUB, 'notes.json')))
 except Exception as e: notes = []
-sh('git checkout -- . ; git clean -fdq -e REFACTORS -e REFACTORS2 -e target'); kept = 0
+sh('git checkout -- . ; git clean -fdq -e REFACTORS -e REFACTORS2 -e REFACTORS3 -e target'); kept = 0
 for k in range(1, 9):
     pf = os.path.join(wt, SUB, 'refactor-%d.diff' % k)
     if not os.path.exists(pf): continue
